@@ -139,3 +139,13 @@ func init() {
 		Assumptions: []string{"suffix.Sort/LCP are correct (C09)", "cost(a,0) is additive in a (XZCost: 9 bits per literal), so initialising d[i] with cost(i,0) agrees with unit literal steps"},
 	}
 }
+
+func init() {
+	properties["C19"] = &Property{
+		Title: "matches are maximal; byte runs are compressed (structural clauses)",
+		Rules: []string{"R-OFFSET-AGREE", "R-EXT-COVER", "R-BACKEXT", "R-REINDEX", "R-CAND-MEASURED", "R-STRIDE", "R-GSAP-BOTH"},
+		Decided: "for every non-optimizing parser: each comparison feeding MatchLen is between x and x−Offset and starts where the verified part ends; every path to an emission ends with a mismatch witness or at the block end (extension loops keep k + len(q) = len(p) − i, tail compared only with ≤ 7 bytes left); the backward extension covers min(pending literals, source position) bytes exactly when literals are pending; the scanned position and every position covered by a match are indexed; a table candidate with equal hash input inside the window is always measured.",
+		NotDecided: "the run clause as a count of literals per block (depends on hash values and table contents at run time); maximality as a fact about bytes rests on the trusted semantics of the word loaders and of lcp/lcs.",
+		Assumptions: []string{"_getLE64/getLE64 load the little-endian word at the start of their argument; lcp/lcs return exact common prefix/suffix lengths"},
+	}
+}
